@@ -2,7 +2,9 @@
 Theorems: Properties/C10.v — (1) Model/Session.v: in the model every export / build_query of a table
 depends only on the tree bound when the table was created, whatever happened before or in between
 (history independence, any session); (2) Model/Heap.v + generated/CacheUpdate.v: the statement list of
-Cache.update, re-read from /repo, only writes objects allocated during the call (frame theorem).
+Cache.update, re-read from /repo, only writes objects allocated during the call (frame theorem); (3) Model/HeapProg.v
++ generated/VerbEffects.v: the same for the bodies (with their loops and branches) of the verb front ends,
+check_subquery, the modify_ast / verb wrappers, every map_subtree and every receiver-writing map_* method.
 Tie (harness/session.py): every case = a generated pipeline + probe pipelines branching from its
 earlier tables (mutate / summarize / group_by(add=True) / filter / arrange built from SHARED expression
 objects: one count(), one C.<col>.sum(), one order key reused in every table, grouping state and verb
@@ -31,6 +33,12 @@ TRUSTED_BASE = [
     "harness/session.py fingerprint: attribute-wise structural dump of Table, Cache, AstNode, ColExpr, source frames and "
     "SQLite table contents (memo fields _dtype / _ftype of derived expressions excluded: their effect is checked through results)",
     "harness/translate.py gen_cacheupdate: statement classification of Cache.update (fail-closed)",
+    "harness/translate.py gen_verbeffects: Python function -> Model/HeapProg.v program (fail-closed); calls are not followed: "
+    "a call of a function translated in the same run is taken to satisfy its own theorem, TRUSTED_FUNCS / TRUSTED_METHODS "
+    "(tree constructors, argument checkers, readers, the data-model hooks of Table / ColExpr) are taken to be write-free, "
+    "builtin container mutators to write their receiver only, callback parameters of the map_* methods to be write-free; "
+    "syntactic return-shape checks (every @modify_ast verb returns its own copy.copy(table); check_subquery returns its "
+    "first argument or its own copy)",
 ]
 ASSUMPTIONS = ["pipelines without rand(); rows compared as multisets where no arrange fixes the order"]
 PROFILE = {"max_steps": 5, "joins": 0.25, "unions": 0.15}
@@ -351,5 +359,7 @@ def run(ctx, res):
     cov["distinct_nontrivial"] = len({pipeprop.case_key(c) for c in cases})
     cov["sessions"] = dict(stats)
     cov["probe_kinds"] = dict(collections.Counter(p.get("kind", "?") for c in cases for p in c.get("late_pipes", [])))
-    cov["partial"] = ["the verb front end, preprocess_arg and the backend compilers are not modelled: their immutability is "
-                      "decided by the session runs (fingerprints, A vs B), the frame theorem covers Cache.update only"]
+    cov["partial"] = ["the frame theorems cover Cache.update, preprocess_arg, the verb front ends, check_subquery and the "
+                      "tree-rewriting methods (calls not followed: verified-in-the-same-run or trusted names); the clones made by "
+                      "export / build_query and the backend compilers are not translated: their immutability is decided by the "
+                      "session runs (fingerprints, A vs B)"]
